@@ -4,7 +4,8 @@ import copy
 import lxml.etree as ET
 
 URI = "http://www.omg.org/space/xtce"
-CONVENTIONS = ["prefix-xtce", "prefix-q7", "default-ns", "no-ns"]
+# the last three prefixes are adversarial: they are themselves (the beginning of) XTCE element names
+CONVENTIONS = ["prefix-xtce", "prefix-q7", "default-ns", "no-ns", "prefix-Unit", "prefix-P", "prefix-SequenceContainer"]
 
 
 def L(tag):
@@ -41,6 +42,9 @@ def render(xml, convention):
         return ET.tostring(rebuild(root, URI, {"q7": URI, "xsi": "http://www.w3.org/2001/XMLSchema-instance"})), "q7"
     if convention == "default-ns":
         return ET.tostring(rebuild(root, URI, {None: URI})), None
+    if convention.startswith("prefix-"):
+        pre = convention[len("prefix-"):]
+        return ET.tostring(rebuild(root, URI, {pre: URI})), pre
     return ET.tostring(rebuild(root, None, None)), None
 
 
